@@ -244,8 +244,14 @@ func (pipeline *IncrementalPipeline) sync(job *job, ctx context.Context) (int, e
 
 						local := func(workId int, lentities []*server.Entity, wg *sync.WaitGroup) {
 							res := presult{}
-							if reflect.TypeOf(pipeline.transform) == reflect.TypeOf(&JavascriptTransform{}) {
-								t := pipeline.transform.(*JavascriptTransform)
+							// a transform wrapped for error handling only delegates; look through the
+							// wrapper so that each worker still gets its own clone of the JS runtime
+							inner := pipeline.transform
+							if w, ok := inner.(*wrappedTransform); ok {
+								inner = w.t
+							}
+							if reflect.TypeOf(inner) == reflect.TypeOf(&JavascriptTransform{}) {
+								t := inner.(*JavascriptTransform)
 								tc, _ := t.Clone()
 								pe, e := tc.transformEntities(runner, lentities, job.title)
 								res.entities = pe
